@@ -373,6 +373,24 @@ static const char* numeric_range_convertible_types()
     return "cihTF";
 }
 
+//! whether going from @a from to @a to by @a delta is a step in delta's
+//! direction, i.e. the integer addition did not wrap around
+static int steps_without_wrap(const rtosc_arg_val_t* from,
+                              const rtosc_arg_val_t* to,
+                              const rtosc_arg_val_t* delta)
+{
+    switch(from->type)
+    {
+        case 'c':
+        case 'i':
+            return (delta->val.i > 0) == (to->val.i > from->val.i);
+        case 'h':
+            return (delta->val.h > 0) == (to->val.h > from->val.h);
+        default:
+            return 1;
+    }
+}
+
 //! tries to convert all args starting at @a arg into
 //! an arg val range - if possible
 //! @param arg_out array, output which must have the size of arg or more;
@@ -405,6 +423,9 @@ static int32_t rtosc_convert_to_range(const rtosc_arg_val_t* const arg,
     else if(strchr(numeric_range_convertible_types(), arg->type)) {
         has_delta = 1;
         rtosc_arg_val_sub(arg+1, arg, &delta);
+        // a range can not count across the limits of its type
+        if(!steps_without_wrap(arg, arg+1, &delta))
+            return 0;
     }
     else return 0;
 
@@ -418,9 +439,11 @@ static int32_t rtosc_convert_to_range(const rtosc_arg_val_t* const arg,
             if(has_delta)
                 rtosc_arg_val_add(arg+skipped, &delta, &added);
 
-            if(next >= size || !rtosc_arg_vals_eq_single(has_delta ? &added
-                                                                   : arg,
-                                                         arg+next, NULL))
+            if(next >= size ||
+               (has_delta &&
+                !steps_without_wrap(arg+skipped, &added, &delta)) ||
+               !rtosc_arg_vals_eq_single(has_delta ? &added : arg,
+                                         arg+next, NULL))
                 go_on = false;
         }
     }
